@@ -302,7 +302,8 @@ theorem get_noPanic (s : Substance) (name : String) (hs : SubstOK s) : NoPanic (
 /-- the two facts about the database that `eval_expr` relies on -/
 structure CtxOK (ctx : Ctx) : Prop where
   /-- the constants behind every temperature suffix exist and the scale has the unit of the base -/
-  degrees : ∀ d : Degree, ∃ s b, ctx.lookup d.baseScale.2 = some s ∧ ctx.lookup d.baseScale.1 = some b ∧ s.unit = b.unit
+  degrees : ∀ d : Degree, ∃ s b, ctx.lookup d.baseScale.2 = some s ∧ ctx.lookup d.baseScale.1 = some b ∧ s.unit = b.unit ∧
+    s.value ≠ .rational 0
   /-- no substance has a property with a zero input -/
   substances : ∀ name s, ctx.reg.substance name = some s → SubstOK s
 
@@ -344,7 +345,7 @@ theorem evalExpr_noPanic (ctx : Ctx) (hc : CtxOK ctx) : ∀ e : Expr, NoPanic (e
     · exact noPanic_err _
     · rename_i hv
       have hvu : v.unit = [] := by simpa using hv
-      obtain ⟨s, b, hs, hb, hsb⟩ := hc.degrees d
+      obtain ⟨s, b, hs, hb, hsb, _⟩ := hc.degrees d
       simp only [hs, hb]
       have hu : (Number.mul v s).unit = b.unit := by rw [mul_nil_unit v s hvu, hsb]
       split
@@ -534,7 +535,7 @@ theorem ctxOK_of_checks (ctx : Ctx) (p : Option Number) (hd : degreesOKb ctx = t
     | none => simp [hs', hb'] at h3
     | some b =>
       simp [hs', hb'] at h3
-      exact ⟨s, b, rfl, rfl, h3⟩
+      exact ⟨s, b, rfl, rfl, h3.1, h3.2⟩
 
 /-- **C04, evaluator.** For every expression, in every session state of a database that passes
 the two checks, `eval_expr` ends in a value, an error value, or outside the modelled subset —
@@ -543,5 +544,392 @@ theorem eval_never_panics (ctx : Ctx) (p : Option Number) (hd : degreesOKb ctx =
     (hs : ∀ name s, ctx.reg.substance name = some s → substOKb s = true) (e : Expr) :
     ∀ site, evalExpr { ctx with previous := p } e ≠ .panic site :=
   evalExpr_noPanic _ (ctxOK_of_checks ctx p hd hs) e
+
+end Rink.Spec.C04
+
+/-! ### beyond `eval_expr`: unit lists, conversion targets and the query dispatcher -/
+namespace Rink.Spec.C04
+open Rink Rink.Eval
+
+theorem numeric_divRem_noPanic (a b : Numeric) (hb : b ≠ .rational 0) : NoPanic (Numeric.divRem a b) := by
+  intro s h
+  cases a <;> cases b <;> simp [Numeric.divRem] at h
+  rename_i x y
+  split at h
+  · rename_i hy; exact hb (by rw [hy])
+  · cases h
+
+/-- the division loop of `to_list` over members that are all non-zero -/
+theorem listLoop_noPanic : ∀ (units : List Number) (v : Numeric), (∀ u ∈ units, u.value ≠ .rational 0) →
+    NoPanic (listLoop v units)
+  | [], v, _ => by simp only [listLoop]; exact noPanic_ok _
+  | [u], v, h => by
+    simp only [listLoop]
+    exact noPanic_bind (numeric_div_noPanic _ _ (h u (by simp))) (fun _ _ => noPanic_ok _)
+  | u :: u' :: us, v, h => by
+    simp only [listLoop]
+    apply noPanic_bind (numeric_divRem_noPanic _ _ (h u (by simp)))
+    intro dr _
+    obtain ⟨d, r⟩ := dr
+    exact noPanic_bind (listLoop_noPanic (u' :: us) r (fun x hx => h x (List.mem_cons_of_mem _ hx))) (fun _ _ => noPanic_ok _)
+
+theorem lookupAll_noPanic (ctx : Ctx) : ∀ names : List String, NoPanic (lookupAll ctx names)
+  | [] => by simp only [lookupAll]; exact noPanic_ok _
+  | n :: ns => by
+    simp only [lookupAll]
+    split
+    · exact noPanic_bind (lookupAll_noPanic ctx ns) (fun _ _ => noPanic_ok _)
+    · exact noPanic_err _
+
+/-- `to_list` (after the fix): a zero-valued member is refused before the division loop runs -/
+theorem toList_noPanic (ctx : Ctx) (top : Number) (names : List String) : NoPanic (toList ctx top names) := by
+  unfold toList
+  apply noPanic_bind (lookupAll_noPanic ctx names)
+  intro units _
+  cases units with
+  | nil => exact noPanic_err _
+  | cons first rest =>
+    simp only []
+    split
+    · exact noPanic_err _
+    · split
+      · exact noPanic_err _
+      · split
+        · exact noPanic_err _
+        · rename_i hz
+          split
+          · exact noPanic_unsupported _
+          · apply noPanic_bind
+            · apply listLoop_noPanic
+              intro u hu hv
+              apply hz
+              apply List.any_eq_true.mpr
+              refine ⟨u, hu, ?_⟩
+              rw [hv]; simp
+            · intro _ _; exact noPanic_ok _
+
+theorem finishExpr_noPanic (ctx : Ctx) (n : Number) : NoPanic (finishExpr ctx n) := by
+  unfold finishExpr
+  split
+  · exact noPanic_bind (toList_noPanic ctx n _) (fun _ _ => noPanic_ok _)
+  · exact noPanic_ok _
+
+/-- no product node without factors (the parser never builds one; the driver checks every
+parsed conversion target of the stream) -/
+def NoEmptyMul : Expr → Prop
+  | .mul [] => False
+  | .mul (e :: es) => NoEmptyMul e ∧ NoEmptyMulList es
+  | .binop _ l r => NoEmptyMul l ∧ NoEmptyMul r
+  | .unary _ e => NoEmptyMul e
+  | .ofProp _ e => NoEmptyMul e
+  | _ => True
+where
+  NoEmptyMulList : List Expr → Prop
+    | [] => True
+    | e :: es => NoEmptyMul e ∧ NoEmptyMulList es
+
+mutual
+/-- `eval_unit_name`: the zero divisors and `todo!()` arms are error values (after the fixes),
+and `exprs[1..]` is never taken of an empty product -/
+theorem evalUnitName_noPanic (ctx : Ctx) (hc : CtxOK ctx) : ∀ e : Expr, NoEmptyMul e → NoPanic (evalUnitName ctx e)
+  | .call _ _, _ => by simp only [evalUnitName]; exact noPanic_err _
+  | .unit _, _ => by simp only [evalUnitName]; exact noPanic_ok _
+  | .quote _, _ => by simp only [evalUnitName]; exact noPanic_ok _
+  | .const _, _ => by simp only [evalUnitName]; exact noPanic_ok _
+  | .date _, _ => by simp only [evalUnitName]; exact noPanic_err _
+  | .error _, _ => by simp only [evalUnitName]; split <;> first | exact noPanic_unsupported _ | exact noPanic_err _
+  | .ofProp _ e, _ => by
+    simp only [evalUnitName]
+    exact noPanic_bind (evalExpr_noPanic ctx hc e) (fun _ _ => noPanic_err _)
+  | .unary .positive e, h => by simp only [evalUnitName]; exact evalUnitName_noPanic ctx hc e (by simpa [NoEmptyMul] using h)
+  | .unary .negative e, h => by
+    simp only [evalUnitName]
+    exact noPanic_bind (evalUnitName_noPanic ctx hc e (by simpa [NoEmptyMul] using h)) (fun _ _ => noPanic_ok _)
+  | .unary (.degree _) _, _ => by simp only [evalUnitName]; exact noPanic_err _
+  | .mul [], h => by simp [NoEmptyMul] at h
+  | .mul (e :: es), h => by
+    simp only [evalUnitName]
+    have h' : NoEmptyMul e ∧ NoEmptyMul.NoEmptyMulList es := by simpa [NoEmptyMul] using h
+    apply noPanic_bind (evalUnitName_noPanic ctx hc e h'.1)
+    intro first _
+    exact unitNameFold_noPanic ctx hc es first h'.2
+  | .binop op l r, h => by
+    have h' : NoEmptyMul l ∧ NoEmptyMul r := by simpa [NoEmptyMul] using h
+    cases op with
+    | equals => simp only [evalUnitName]; split <;> first | exact noPanic_ok _ | exact noPanic_err _
+    | add | sub | mod =>
+      simp only [evalUnitName]
+      apply noPanic_bind (evalUnitName_noPanic ctx hc l h'.1)
+      intro a _
+      apply noPanic_bind (evalUnitName_noPanic ctx hc r h'.2)
+      intro b _
+      split <;> first | exact noPanic_err _ | exact noPanic_ok _
+    | frac =>
+      simp only [evalUnitName]
+      apply noPanic_bind (evalUnitName_noPanic ctx hc l h'.1)
+      intro a _
+      apply noPanic_bind (evalUnitName_noPanic ctx hc r h'.2)
+      intro b _
+      split
+      · exact noPanic_err _
+      · rename_i hz
+        split
+        · exact noPanic_unsupported _
+        · apply noPanic_bind
+          · apply numeric_div_noPanic
+            intro hb; apply hz; rw [hb]; rfl
+          · intro _ _; exact noPanic_ok _
+    | pow =>
+      simp only [evalUnitName]
+      apply noPanic_bind (evalExpr_noPanic ctx hc r)
+      intro e _
+      split
+      · exact noPanic_err _
+      · split
+        · exact noPanic_unsupported _
+        · split
+          · exact noPanic_unsupported _
+          · apply noPanic_bind (evalUnitName_noPanic ctx hc l h'.1)
+            intro lv _
+            split
+            · exact noPanic_unsupported _
+            · split
+              · exact noPanic_unsupported _
+              · split
+                · exact noPanic_err _
+                · rename_i k _ _ _ hz
+                  apply noPanic_bind
+                  · apply numeric_pow_noPanic
+                    intro hk hv
+                    apply hz
+                    simp [hk, hv]
+                  · intro _ _; exact noPanic_ok _
+    | shl | shr => simp only [evalUnitName]; exact noPanic_err _
+    | and | or | xor =>
+      simp only [evalUnitName]
+      apply noPanic_bind (evalUnitName_noPanic ctx hc l h'.1)
+      intro a _
+      apply noPanic_bind (evalUnitName_noPanic ctx hc r h'.2)
+      intro b _
+      split <;> first | exact noPanic_err _ | exact noPanic_ok _
+
+theorem unitNameFold_noPanic (ctx : Ctx) (hc : CtxOK ctx) :
+    ∀ (es : List Expr) (acc : NameMap × Numeric), NoEmptyMul.NoEmptyMulList es →
+      NoPanic (evalUnitName.unitNameFold ctx acc es)
+  | [], acc, _ => by simp only [evalUnitName.unitNameFold]; exact noPanic_ok _
+  | e :: es, acc, h => by
+    simp only [evalUnitName.unitNameFold]
+    have h' : NoEmptyMul e ∧ NoEmptyMul.NoEmptyMulList es := by simpa [NoEmptyMul.NoEmptyMulList] using h
+    apply noPanic_bind (evalUnitName_noPanic ctx hc e h'.1)
+    intro b _
+    exact unitNameFold_noPanic ctx hc es _ h'.2
+end
+
+end Rink.Spec.C04
+
+/-! ### the query dispatcher -/
+namespace Rink.Spec.C04
+open Rink Rink.Eval
+
+/-- what showing the definition of `name` relies on: alias expansion ends (its `assert!`s hold)
+and a quantity name has a definition -/
+def DefShowOK (ctx : Ctx) (name : String) : Prop :=
+  ∃ n canon, expandAliases ctx 1000 name ((ctx.canonicalize name).getD name) = some (n, canon) ∧
+    (ctx.reg.isBaseUnit n = false → ctx.reg.isQuantityName n = true → (ctx.reg.definition n).isSome = true)
+
+theorem quantityOrValue_noPanic (ctx : Ctx) (hc : CtxOK ctx) (e : Expr) : NoPanic (quantityOrValue ctx e) := by
+  unfold quantityOrValue
+  simp only []
+  split
+  · exact noPanic_ok _
+  · exact evalExpr_noPanic ctx hc e
+
+theorem degreeConv_noPanic (ctx : Ctx) (hc : CtxOK ctx) (top : Expr) (d : Degree) (digits : Digits) :
+    NoPanic (evalQuery ctx (.convert top (.degree d) none digits)) := by
+  simp only [evalQuery]
+  apply noPanic_bind (evalExpr_noPanic ctx hc top)
+  intro t _
+  obtain ⟨s, b, hs, hb, hsb, hnz⟩ := hc.degrees d
+  simp only [hs, hb]
+  split
+  · exact noPanic_err _
+  · rename_i hu
+    have hts : t.unit = s.unit := by simpa using hu
+    split
+    · rename_i hne; simp [hts, hsb] at hne
+    · -- the scale is not zero, so the division cannot fail
+      have hdiv := div_noPanic ⟨t.value.sub b.value, t.unit⟩ s
+      have hne : ∀ c, Number.div ⟨t.value.sub b.value, t.unit⟩ s ≠ .err c := by
+        intro c hc'
+        unfold Number.div at hc'
+        split at hc'
+        · rename_i q hq
+          split at hc'
+          · rename_i hz; exact hnz (by rw [hq, hz])
+          · unfold Number.invert at hc'
+            cases hd : Numeric.div Numeric.one s.value with
+            | ok v => simp [hd] at hc'
+            | err c' =>
+              unfold Numeric.div at hd
+              cases hv : s.value <;> simp [hv, Numeric.one] at hd
+              split at hd <;> cases hd
+            | panic s' => simp [hd] at hc'
+            | unsupported w => simp [hd] at hc'
+        · cases hc'
+      generalize Number.div ⟨t.value.sub b.value, t.unit⟩ s = r at hdiv hne
+      cases r with
+      | ok v => exact noPanic_ok _
+      | err c => exact absurd rfl (hne c)
+      | panic s' => exact absurd rfl (hdiv s')
+      | unsupported w => exact noPanic_unsupported _
+
+/-- **C04, dispatcher.** `eval_query` never reaches a panic site, for every query whose
+conversion target (if any) has no empty product node, given the database facts and, for the one
+branch that prints a definition, that alias expansion of that name ends. -/
+theorem evalQuery_noPanic (ctx : Ctx) (hc : CtxOK ctx) (q : Query)
+    (hdef : ∀ name, q = .expr (.unit name) → canShowDefinition ctx name = true → DefShowOK ctx name)
+    (hmul : ∀ top bottom base digits, q = .convert top (.expr bottom) base digits → NoEmptyMul bottom) :
+    NoPanic (evalQuery ctx q) := by
+  have ev := fun e => evalExpr_noPanic ctx hc e
+  have bindEv : ∀ {β} (e : Expr) (f : Number → Outcome β), (∀ n, NoPanic (f n)) → NoPanic (evalExpr ctx e >>= f) :=
+    fun e f hf => noPanic_bind (ev e) (fun n _ => hf n)
+  cases q with
+  | search s => simp only [evalQuery]; exact noPanic_unsupported _
+  | error msg => simp only [evalQuery]; first | exact noPanic_err _ | (split <;> first | exact noPanic_err _ | exact noPanic_unsupported _)
+  | factorize e =>
+    simp only [evalQuery]
+    apply noPanic_bind (quantityOrValue_noPanic ctx hc e)
+    intro v _
+    split <;> first | exact noPanic_unsupported _ | exact noPanic_ok _
+  | unitsFor e =>
+    simp only [evalQuery]
+    exact noPanic_bind (quantityOrValue_noPanic ctx hc e) (fun _ _ => noPanic_ok _)
+  | expr e =>
+    cases e with
+    | unit name =>
+      simp only [evalQuery]
+      by_cases hshow : canShowDefinition ctx name = true
+      · obtain ⟨n, canon, hexp, hq⟩ := hdef name rfl hshow
+        simp only [hshow, if_true, hexp]
+        split
+        · exact noPanic_ok _
+        · rename_i hb
+          split
+          · rename_i hqn
+            have := hq (by simpa using hb) hqn
+            simp [this]; exact noPanic_ok _
+          · exact noPanic_ok _
+      · simp only [hshow, if_false]
+        exact bindEv _ _ (fun n => finishExpr_noPanic ctx n)
+    | quote _ | const _ | date _ | binop _ _ _ | unary _ _ | mul _ | ofProp _ _ | call _ _ | error _ =>
+      simp only [evalQuery]
+      exact bindEv _ _ (fun n => finishExpr_noPanic ctx n)
+  | convert top c base digits =>
+    cases c with
+    | degree d =>
+      cases base with
+      | none => exact degreeConv_noPanic ctx hc top d digits
+      | some b => simp only [evalQuery]; exact noPanic_err _
+    | expr bottom =>
+      simp only [evalQuery]
+      apply bindEv; intro t
+      apply bindEv; intro b
+      apply noPanic_bind (evalUnitName_noPanic ctx hc bottom (hmul top bottom base digits rfl))
+      intro nc _
+      obtain ⟨names, const⟩ := nc
+      simp only []
+      split
+      · exact noPanic_bind (div_noPanic t b) (fun _ _ => noPanic_ok _)
+      · exact noPanic_err _
+    | none =>
+      cases base with
+      | some b => simp only [evalQuery]; exact bindEv _ _ (fun _ => noPanic_ok _)
+      | none =>
+        cases digits <;> simp only [evalQuery] <;>
+          first
+          | exact bindEv _ _ (fun n => finishExpr_noPanic ctx n)
+          | exact bindEv _ _ (fun _ => noPanic_ok _)
+    | list names =>
+      cases base with
+      | some b => simp only [evalQuery]; exact noPanic_err _
+      | none =>
+        cases digits <;> simp only [evalQuery] <;>
+          first
+          | exact noPanic_err _
+          | (apply bindEv; intro t; exact noPanic_bind (toList_noPanic ctx t names) (fun _ _ => noPanic_ok _))
+    | offset secs =>
+      cases base with
+      | some b => simp only [evalQuery]; exact noPanic_err _
+      | none =>
+        cases digits <;> simp only [evalQuery] <;>
+          first
+          | exact noPanic_err _
+          | exact bindEv _ _ (fun _ => noPanic_err _)
+    | timezone tz =>
+      cases base with
+      | some b => simp only [evalQuery]; exact noPanic_err _
+      | none =>
+        cases digits <;> simp only [evalQuery] <;>
+          first
+          | exact noPanic_err _
+          | exact bindEv _ _ (fun _ => noPanic_err _)
+
+end Rink.Spec.C04
+
+/-! ### the executable forms of the dispatcher's hypotheses -/
+namespace Rink.Spec.C04
+open Rink Rink.Eval
+
+mutual
+theorem noEmptyMul_of_b : ∀ e : Expr, noEmptyMulb e = true → NoEmptyMul e
+  | .mul [], h => by simp [noEmptyMulb] at h
+  | .mul (e :: es), h => by
+    simp only [noEmptyMulb, Bool.and_eq_true] at h
+    simp only [NoEmptyMul]
+    exact ⟨noEmptyMul_of_b e h.1, noEmptyMulList_of_b es h.2⟩
+  | .binop _ l r, h => by
+    simp only [noEmptyMulb, Bool.and_eq_true] at h
+    simp only [NoEmptyMul]
+    exact ⟨noEmptyMul_of_b l h.1, noEmptyMul_of_b r h.2⟩
+  | .unary _ e, h => by simp only [noEmptyMulb] at h; simp only [NoEmptyMul]; exact noEmptyMul_of_b e h
+  | .ofProp _ e, h => by simp only [noEmptyMulb] at h; simp only [NoEmptyMul]; exact noEmptyMul_of_b e h
+  | .unit _, _ => by simp [NoEmptyMul]
+  | .quote _, _ => by simp [NoEmptyMul]
+  | .const _, _ => by simp [NoEmptyMul]
+  | .date _, _ => by simp [NoEmptyMul]
+  | .call _ _, _ => by simp [NoEmptyMul]
+  | .error _, _ => by simp [NoEmptyMul]
+theorem noEmptyMulList_of_b : ∀ es : List Expr, noEmptyMulListb es = true → NoEmptyMul.NoEmptyMulList es
+  | [], _ => by simp [NoEmptyMul.NoEmptyMulList]
+  | e :: es, h => by
+    simp only [noEmptyMulListb, Bool.and_eq_true] at h
+    simp only [NoEmptyMul.NoEmptyMulList]
+    exact ⟨noEmptyMul_of_b e h.1, noEmptyMulList_of_b es h.2⟩
+end
+
+theorem defShowOK_of_b (ctx : Ctx) (name : String) (h : defShowOKb ctx name = true) : DefShowOK ctx name := by
+  unfold defShowOKb at h
+  split at h
+  · cases h
+  · rename_i n canon hexp
+    refine ⟨n, canon, hexp, ?_⟩
+    intro hb hq
+    simp [hb, hq] at h
+    exact h
+
+/-- **C04, one query.** With the executable checks: the database facts (run once per registry),
+the shape of the conversion target and the definition display of the queried name (run by the
+driver on every line of the stream), `eval_query` does not reach a panic site — in any session
+state. -/
+theorem query_never_panics (ctx : Ctx) (p : Option Number) (hd : degreesOKb ctx = true)
+    (hs : ∀ name s, ctx.reg.substance name = some s → substOKb s = true) (q : Query)
+    (hname : ∀ name, q = .expr (.unit name) → canShowDefinition { ctx with previous := p } name = true →
+      defShowOKb { ctx with previous := p } name = true)
+    (htarget : ∀ b, conversionTarget q = some b → noEmptyMulb b = true) :
+    ∀ site, evalQuery { ctx with previous := p } q ≠ .panic site := by
+  apply evalQuery_noPanic _ (ctxOK_of_checks ctx p hd hs) q
+  · intro name hq hshow; exact defShowOK_of_b _ name (hname name hq hshow)
+  · intro top bottom base digits hq
+    exact noEmptyMul_of_b bottom (htarget bottom (by rw [hq]; rfl))
 
 end Rink.Spec.C04
